@@ -60,4 +60,6 @@ class UseGenerator(SimpleCodemod, NameResolutionMixin):
                                 ],
                             )
 
-        return original_node
+        # not `original_node`: that would discard a rewrite made inside this call's
+        # arguments, e.g. `print(any([...]))`, whose change has already been reported
+        return updated_node
